@@ -19,7 +19,7 @@ import ast
 import math
 from typing import Dict, List, Optional, Set, Tuple
 
-from .astutil import assigned_names, const_num, txt
+from .astutil import assigned_names, const_num, expand_locals, single_defs, txt
 from .model import AnalysisError, FunctionInfo, walk_local
 
 AXES = {"x_unit_vector": 0, "y_unit_vector": 1, "z_unit_vector": 2}
@@ -37,6 +37,11 @@ class VecCtx:
         self.fi = fi
         self.g = ctx.cfg(fi)
         self.asg = assigned_names(fi.node)
+        self.sdefs = single_defs(fi.node, fi.params)
+
+    def expand(self, e: ast.AST) -> ast.AST:
+        """single-definition locals replaced by their defining expressions (a fresh tree)"""
+        return expand_locals(self.fi.node, e, self.fi.params, defs=self.sdefs)
 
     def const(self, e: ast.AST) -> Optional[float]:
         v = const_num(e)
@@ -76,7 +81,7 @@ class VecCtx:
         return None
 
     def canon(self, e: ast.AST) -> str:
-        e = _strip_norm(e)
+        e = _strip_norm(self.expand(e))
         a = self.axis_of(e)
         if a is not None:
             return "axis%d" % a
@@ -85,10 +90,12 @@ class VecCtx:
     def defs_of(self, e: ast.AST) -> List[Tuple[ast.AST, Optional[ast.AST]]]:
         """reaching definitions of an expression that is a local name: [(value expr, def stmt)]"""
         e = _strip_norm(e)
+        if isinstance(e, ast.Name) and e.id in self.sdefs:
+            return [(self.expand(e), self.asg[e.id][0])]
         if isinstance(e, ast.Name) and e.id in self.asg and e.id not in self.fi.params:
             out = []
             for d in self.asg[e.id]:
-                if isinstance(d, ast.Assign):
+                if isinstance(d, ast.Assign) and len(d.targets) == 1 and isinstance(d.targets[0], ast.Name):
                     out.append((d.value, d))
                 else:
                     return [(e, None)]
@@ -251,7 +258,7 @@ def check_cross(ctx, res, fi: FunctionInfo, rule: str) -> int:
                     tried += edges
                 # (iii) cross of a normalised cross product with one of its own factors
                 if done is None:
-                    for a, b in ((xv, yv), (yv, xv)):
+                    for a, b in ((vc.expand(xv), yv), (vc.expand(yv), xv)):
                         a0 = _strip_norm(a)
                         if isinstance(a0, ast.Call) and isinstance(a0.func, ast.Attribute) and a0.func.attr == "cross" \
                                 and a0 is not a and len(a0.args) == 1:
